@@ -288,6 +288,6 @@ def strat_intersection(tier):
 
 
 PARTS = [
-    Part("design", check_design, lambda tier: strat_design(tier), quick=2000, thorough=50000, min_nontrivial_frac=0.3),
-    Part("intersection", check_intersection, strat_intersection, quick=1500, thorough=30000, min_nontrivial_frac=0.3),
+    Part("design", check_design, lambda tier: strat_design(tier), quick=2000, thorough=50000, min_nontrivial_frac=0.2),
+    Part("intersection", check_intersection, strat_intersection, quick=1500, thorough=30000, min_nontrivial_frac=0.25),
 ]
